@@ -169,6 +169,7 @@ func passS(repo string, cfg *vc.SolverConfig, only string) (*vc.PassResult, erro
 	x.Goexit = true
 	res := &vc.PassResult{Pass: "S", Ungenerated: map[string]string{}}
 	all := map[*ssa.Function]*vc.FuncSpec{}
+	var frames []vc.FrameDecl
 	for _, pc := range []struct{ pkg, file string }{
 		{"go.uber.org/cff/scheduler", filepath.Join(repo, "scheduler", "contracts_verif.go")},
 		{"go.uber.org/cff", filepath.Join(repo, "contracts_verif.go")},
@@ -180,6 +181,7 @@ func passS(repo string, cfg *vc.SolverConfig, only string) (*vc.PassResult, erro
 			}
 			return nil, err
 		}
+		frames = append(frames, cf.Frames...)
 		for fn, sp := range vc.BindSpecs(x, lr, pc.pkg, cf, res) {
 			all[fn] = sp
 		}
@@ -187,6 +189,9 @@ func passS(repo string, cfg *vc.SolverConfig, only string) (*vc.PassResult, erro
 	filterBound(all, only)
 	configureS(x)
 	vc.VerifyAll(x, all, res)
+	if only == "" {
+		sStructural(x, lr, frames, res)
+	}
 	vc.Finish(x, cfg, res, start)
 	return res, nil
 }
@@ -255,6 +260,7 @@ func passK(repo string, cfg *vc.SolverConfig, only string) (*vc.PassResult, erro
 // explicit "inline" marker is opaque and assumed not to panic (its own
 // no-panic obligations are generated where it is under contract).
 func configureK(x *vc.Exec) {
+	x.NilInterfaceSafety = true
 	x.Classify = func(s *vc.State, c *vc.CallCtx, callee vc.Value) vc.CallMode {
 		if fv, ok := callee.(*vc.FuncVal); ok && !c.Common.IsInvoke() {
 			if sp, ok := x.Specs[fv.Fn]; ok && sp.Inline {
